@@ -3,9 +3,14 @@ open RawPanelVerif.C10
 #print axioms allocs_below_limit
 #print axioms stopped_absorbs
 #print axioms limit_before_alloc
+#print axioms arrival_needs_open_deadline
+#print axioms stalled_frame_never_delivered
 #print axioms stall_drops
 #print axioms stall_drops_pinned_payload
 #print axioms pinned_header_stall_counterexample
+#print axioms zero_frame_clears_deadline
+#print axioms zero_frame_shortcut_counterexample
+#print axioms disconnect_non_cancelled
 #print axioms garbage_payload_keeps_sync
 #print axioms boundaries_depend_on_lengths_only
 #print axioms nothing_of_incomplete_frame_delivered
